@@ -26,6 +26,8 @@ type GenOpts struct {
 	AllowDupLL   bool // allow duplicate values in config leaf-lists (invalid per YANG)
 	AnyChoice    bool // do not enforce one case per choice (invalid per YANG)
 	EmptyLLs     bool // sometimes build non-nil empty leaf-lists (C02 only)
+	EmptyLLPct   int  // probability (percent) of an empty non-nil leaf-list when EmptyLLs (default 15)
+	Rare         func(*FieldInfo) bool // fields populated with ~1/8 of the usual probability (open findings)
 	Skip         func(*FieldInfo) bool
 	Want         func(*FieldInfo) bool // fields that should be populated with high probability
 	MaxDec       int                   // max significant bits of |scaled decimal| (default 49)
@@ -43,6 +45,9 @@ func (o *GenOpts) defaults() {
 	}
 	if o.MaxDec == 0 {
 		o.MaxDec = 49
+	}
+	if o.EmptyLLPct == 0 {
+		o.EmptyLLPct = 15
 	}
 }
 
@@ -101,6 +106,9 @@ func (g *genCtx) node(si *StructInfo, fixed map[string]Val) *Node {
 		if g.o.Want != nil && g.o.Want(f) {
 			p = 92
 		}
+		if g.o.Rare != nil && g.o.Rare(f) {
+			p = (p + 7) / 8
+		}
 		if g.pct(f.Name+"?") >= p {
 			continue
 		}
@@ -139,7 +147,7 @@ func (g *genCtx) node(si *StructInfo, fixed map[string]Val) *Node {
 			if hi < lo {
 				hi = lo
 			}
-			if g.o.EmptyLLs && f.Min == 0 && g.pct("emptyll") < 15 {
+			if g.o.EmptyLLs && f.Min == 0 && g.pct("emptyll") < g.o.EmptyLLPct {
 				n.EmptyLL[f.Name] = true
 				continue
 			}
